@@ -272,7 +272,8 @@ func isOpSmelly(a, b syntax.Op) bool {
 }
 
 func findMatcherPos(expr string, within posrange.PositionRange, m *labels.Matcher) posrange.PositionRange {
-	re := regexp.MustCompile("(" + m.Name + ")(?: *)" + m.Type.String() + "(?: *)" + `"` + regexp.QuoteMeta(m.Value) + `"`)
+	// Label names can be quoted UTF-8 strings, so they need to be escaped too.
+	re := regexp.MustCompile(`("?` + regexp.QuoteMeta(m.Name) + `"?)(?: *)` + m.Type.String() + "(?: *)" + `"` + regexp.QuoteMeta(m.Value) + `"`)
 	idx := re.FindStringSubmatchIndex(utils.GetQueryFragment(expr, within))
 	if idx == nil {
 		return within
